@@ -340,6 +340,14 @@ int main(int argc, char** argv)
                  { "R,2,3,0,1", 2, false, 1 },
                  { "R,2,3,0,1/R,2,3,0,1", 2, true, 1 } };
     }
+    // cheapest first (state-cached, low bound), so that the time they leave unused rolls over
+    // to the un-cached high-bound searches at the end
+    std::stable_sort(jobs.begin(), jobs.end(),
+                     [](const Job& x, const Job& y)
+                     {
+                         auto cost = [](const Job& j) { return (j.cache ? 0 : 10) + (j.bound < 0 ? 1 : j.bound); };
+                         return cost(x) < cost(y);
+                     });
     check_blocks(rep);
     rep.bounds["block_arithmetic"] = "first,last in 0..12; pool size 1..16; min size 0..8 (exhaustive)";
     double budget = a.deadline_s;
